@@ -19,7 +19,7 @@ Conditions
 Statements (`calculateDerived` only)
   `config = _loadConfig(fpath)`, `const = dict()`, `name = expr` (single assignment),
   `constVars = ["…", …]`, `constVars.extend(["…", …])`, `if/elif/else`,
-  `raise NotImplementedError(…)`, the bundling loop
+  `raise NotImplementedError(<message that cannot raise>)`, the bundling loop
   `for v in constVars: const[v] = locals()[v]`, `return const`.
 
 Semantics carried over
@@ -510,6 +510,8 @@ class Derived:
                     isinstance(e, ast.Call) and isinstance(e.func, ast.Name) and e.func.id == "NotImplementedError")
                 if not ok or st.cause is not None:
                     self.bad(st, "only `raise NotImplementedError(…)` is translated")
+                if isinstance(e, ast.Call):
+                    self.check_message(e)
                 if rest:
                     self.bad(rest[0], "unreachable statement after raise")
                 out.append(pad + 'Except.error "NotImplementedError"')
@@ -680,6 +682,32 @@ class Derived:
                 continue
             self.bad(st, "statement not understood")
         return False
+
+    def check_message(self, call):
+        """the message of a raise is not translated, so building it must not be able to raise something
+        else first: only constants, f-strings, `+`, known variables and config lookups already performed"""
+        seen = self.tr.num_paths + self.tr.str_paths + self.tr.raw_paths
+        if call.keywords:
+            self.bad(call, "keyword arguments in a raise")
+
+        def ok(n):
+            if isinstance(n, ast.Constant):
+                return True
+            if isinstance(n, ast.JoinedStr):
+                return all(ok(v) for v in n.values)
+            if isinstance(n, ast.FormattedValue):
+                return ok(n.value) and (n.format_spec is None or ok(n.format_spec))
+            if isinstance(n, ast.BinOp) and isinstance(n.op, ast.Add):
+                return ok(n.left) and ok(n.right)
+            if isinstance(n, ast.Name):
+                return n.id in self.tr.env
+            if isinstance(n, ast.Subscript):
+                return self.tr.cfg_path(n) in seen
+            return False
+        for a in call.args:
+            if not ok(a):
+                self.bad(a, "exception message could itself raise (only constants, f-strings, +, known variables "
+                            "and config lookups already performed are accepted)")
 
     def check_bundle(self, st):
         ok = (
